@@ -134,6 +134,7 @@ pub fn c04_schedule(seed: u64, index: u64, rep: &mut Report, free: bool) {
             k.knobs.consume_limit = 1;
         }
         k.knobs.sqpoll_strict = true;
+        k.knobs.sqpoll_yield_every = [1u32, 2, 3, 5, 9, 33][(index % 6) as usize];
         // The kernel completes a random subset of what is in flight at every entry.
         let mut krng = Rng::new(rng.next());
         let mut seen_offsets: std::collections::HashSet<u64> = std::collections::HashSet::new();
@@ -660,6 +661,7 @@ pub fn c11_schedule(seed: u64, index: u64, rep: &mut Report, free: bool) {
         k.knobs.layout_seed = rng.next() | 1;
         k.knobs.sq_start = if rng.chance(1, 3) { 0u32.wrapping_sub(rng.below(4) as u32) } else { 0 };
         k.knobs.sqpoll_strict = true;
+        k.knobs.sqpoll_yield_every = [1u32, 2, 3, 5, 9, 33][(index % 6) as usize];
     }
     let mut cfg = Ring::config().with_submission_queue_size(sq_size);
     match ring_type {
@@ -767,7 +769,10 @@ pub fn c11_schedule(seed: u64, index: u64, rep: &mut Report, free: bool) {
     // A poll that could never return is a lost wake-up.
     let kv = simk::k().take_violations();
     for v in kv {
-        if v.prop == "BLOCK" {
+        if v.prop == "BLOCK" && stats.budget_exhausted {
+            // The schedule was cut off (step budget), nothing can be concluded.
+            rep.count("c11_blocked_at_budget_exhaustion", 1);
+        } else if v.prop == "BLOCK" {
             shared.violation("C11", format!("lost-wakeup:poll-blocked-forever:{family}:{ring_type}"), format!("Ring::poll(None) blocked in the kernel with nothing to deliver after every wake() call had returned ({nwakers} waker thread(s), queue full at wake: {fill_queue})"));
         } else {
             shared.violation(v.prop, v.sig, v.detail);
